@@ -48,6 +48,12 @@ UNITS2 = [
     ("{0}C([2H])(c1ccccc1)C{1}", "deuterated_styrene"),  # a labelled hydrogen is an atom of its own (RDKit does not fold it)
     ("{0}C([2H])([2H])C{1}", "dideutero_ethylene"),
     ("{0}CC([3H])(C){1}", "tritiated_propylene"),
+    # every letter of the organic subset somewhere before a descriptor (aromatic p / o, B, P, I)
+    ("{0}Cc1ccpc(c1)CC{1}", "phosphinine"),
+    ("{0}c1ccc(o1)C{1}", "furandiyl"),
+    ("{0}CB(C)C{1}", "borane"),
+    ("{0}CP(C)C{1}", "phosphine"),
+    ("{0}CC(I)C{1}", "iodide"),
     ("{0}C[C@H](C){1}", "propylene_stereo_a"),  # SI.md tacticity examples: bracket attachment atom with a stereo mark
     ("{0}C[C@@H](C){1}", "propylene_stereo_b"),
     ("{0}[C@H](C)C{1}", "stereo_attachment_first"),
